@@ -54,6 +54,8 @@ def simfile_text(rng, fmt, codec):
     parts.append("#BPMS:0.000=120.000;\n")
     if rng.random() < 0.3:
         parts.append("#SUBTITLE;\n")
+    if rng.random() < 0.25:         # a Windows-style path: backslashes, written escaped in the file
+        parts.append(rng.choice(["#BANNER:gfx\\\\banner.png;\n", "#BGCHANGES:0.000=..\\\\bg\\\\a.avi=1.000=1=0=0;\n", "#CDTITLE:a\\\\b;\n"]))
     if rng.random() < 0.25:         # multi-value properties, with blanks next to the colons
         parts.append(rng.choice(["#DISPLAYBPM: 120 : 240 ;\n", "#ATTACKS:TIME=1.5:LEN=2:MODS=drunk\n:  TIME=3:END=4:MODS=tipsy\n;\n", "#DISPLAYBPM:150;\n", "#ATTACKS;\n"]))
     for _ in range(rng.choice([0, 1, 1, 2, 3])):
